@@ -28,6 +28,7 @@ type Config struct {
 	ConcCap   int
 	Preempt   int
 	MaxPaths  int
+	MaxWallS  float64 // stop exploring a harness after this many seconds (0 = no limit); the harness is then reported as truncated
 	MaxSteps  int64
 	Verbose   bool
 	Tier      int // 0 quick, 1 thorough
@@ -233,6 +234,14 @@ func (e *Engine) Run(fn *ssa.Function) *HarnessResult {
 					// the solver keeps timing out: stop exploring, the harness is reported as not exhaustive
 					res.Truncated = true
 					res.Notes["exploration stopped after 64 inconclusive paths (solver time-outs)"] = true
+					e.work = nil
+					e.mu.Unlock()
+					e.cond.Broadcast()
+					break
+				}
+				if e.Cfg.MaxWallS > 0 && time.Since(t0).Seconds() > e.Cfg.MaxWallS {
+					res.Truncated = true
+					res.Notes[fmt.Sprintf("exploration stopped after the per-harness time budget of %.0f s (not exhaustive)", e.Cfg.MaxWallS)] = true
 					e.work = nil
 					e.mu.Unlock()
 					e.cond.Broadcast()
